@@ -565,6 +565,7 @@ type Contract struct {
 	Loops     map[int]*LoopSpec    // by loop ordinal (1-based, source order, all loop kinds)
 	Inspects  map[string]*LoopSpec // higher-order call schemas by "<callee>#<n>"
 	NilRecv   bool                 // the method may be called on a nil receiver
+	NilableParams []string         // external-pointer parameters that may be nil
 	Impure    bool                 // library: results are not a function of the arguments
 	Nullable  bool                 // library: result may be nil
 	NonNil    bool                 // library: result is never nil
@@ -611,7 +612,7 @@ type SpecFile struct {
 var clauseKeywords = map[string]bool{
 	"func": true, "requires": true, "ensures": true, "assigns": true, "fresh": true, "pure": true,
 	"trusted": true, "loop": true, "at": true, "ghost": true, "axiom": true, "lemma": true, "props": true,
-	"nullable": true, "nonnil": true, "let": true, "nullablefield": true, "impure": true, "ghostfield": true, "nilrecv": true, "evaluated": true, "macro": true,
+	"nullable": true, "nonnil": true, "let": true, "nullablefield": true, "impure": true, "ghostfield": true, "nilrecv": true, "evaluated": true, "macro": true, "nilable": true,
 }
 
 // parseSpecLines parses the `//@` lines of a contract file. lines are (text, pos) with the `//@` stripped.
@@ -754,6 +755,8 @@ func parseSpecLines(pkg string, lines []string, poss []string) (*SpecFile, error
 			cur.Impure = true
 		case "nilrecv":
 			cur.NilRecv = true
+		case "nilable":
+			cur.NilableParams = append(cur.NilableParams, strings.Fields(strings.ReplaceAll(rest, ",", " "))...)
 		case "ghostfield":
 			// ghostfield pkg.Type.$name sort
 			f := strings.Fields(rest)
